@@ -95,6 +95,23 @@ func Request(c Case) string {
 	return "process " + b(c.IgnoreCircular) + " " + b(c.IgnoreNotSupported) + " " + w
 }
 
+// RequestText is the drv_res request that sends the raw texts: the whole pipeline from text
+// (generic parser, AST builder, registry, resolver) then runs in Lean.
+func RequestText(c Case) string {
+	b := func(x bool) string {
+		if x {
+			return "1"
+		}
+		return "0"
+	}
+	var sb strings.Builder
+	sb.WriteString("processText " + b(c.IgnoreCircular) + " " + b(c.IgnoreNotSupported))
+	for i := range c.Names {
+		sb.WriteString(" " + lib.HexS(c.Names[i]) + " " + lib.HexS(c.Texts[i]))
+	}
+	return sb.String()
+}
+
 // Outcome of comparing one case.
 type Outcome struct {
 	Case     Case
@@ -104,6 +121,8 @@ type Outcome struct {
 	Model    []string
 	Outside  string // reason when the model declines the input
 	Skipped  string // "parse" when Go rejected a text
+	// LoadResults: per text, what the Lean text pipeline decided (only for text requests).
+	LoadResults []string
 }
 
 // RunAll runs all cases through isolated Go workers and the Lean driver.
@@ -137,6 +156,9 @@ func RunAll(cases []Case, f *lib.Flags) []Outcome {
 			outs[i].Skipped = "parse"
 			continue
 		}
+		if c.Extra["text"] == "1" {
+			r = RequestText(c)
+		}
 		reqs = append(reqs, r)
 		idx = append(idx, i)
 	}
@@ -152,6 +174,14 @@ func RunAll(cases []Case, f *lib.Flags) []Outcome {
 		}
 		if a != "" {
 			outs[i].Model = strings.Split(a, " ; ")
+		}
+		if len(outs[i].Model) > 0 && strings.HasPrefix(outs[i].Model[0], "L ") {
+			// load results of the text pipeline: Go accepted every text of this case
+			outs[i].LoadResults = strings.Fields(outs[i].Model[0])[1:]
+			outs[i].Model = outs[i].Model[1:]
+			if len(outs[i].Model) == 1 && outs[i].Model[0] == "" {
+				outs[i].Model = nil
+			}
 		}
 	}
 	return outs
